@@ -228,7 +228,56 @@ func (eng *Engine) runJobs(tag string, vjobs []vjob, timeout time.Duration, work
 	results := make([]*OblResult, len(jobs))
 	var wg sync.WaitGroup
 	sem := make(chan struct{}, workers)
+	// phase 1: the reachability probes (short queries); phase 2: everything else, except postconditions at returns whose
+	// probe was refuted (see below)
 	for i, j := range jobs {
+		if !j.o.probe {
+			continue
+		}
+		wg.Add(1)
+		go func(i int, j job) {
+			defer wg.Done()
+			sem <- struct{}{}
+			defer func() { <-sem }()
+			results[i] = eng.discharge(j.g, j.o, j.dir, j.idx, timeout, eng.crossCheck)
+			results[i].gen = j.g
+			results[i].dir = j.dir
+			results[i].idx = j.idx
+		}(i, j)
+	}
+	wg.Wait()
+	deadReturn := map[string]bool{}
+	const probeMark = ":PROBE:return-reachable:"
+	for _, r := range results {
+		if r != nil && r.Obl.probe && r.Status == "proved" {
+			if i := strings.Index(r.Obl.name, probeMark); i >= 0 {
+				deadReturn[r.Obl.name[:i]+"|"+r.Obl.name[i+len(probeMark):]] = true
+			}
+		}
+	}
+	atDeadReturn := func(o *Obl) bool {
+		if o.kind != "post" {
+			return false
+		}
+		i := strings.Index(o.name, ":post:") // name: <fn>:post:<label>:<return detail>
+		if i < 0 {
+			return false
+		}
+		rest := o.name[i+len(":post:"):]
+		j := strings.Index(rest, ":")
+		return j >= 0 && deadReturn[o.name[:i]+"|"+rest[j+1:]]
+	}
+	for i, j := range jobs {
+		if j.o.probe {
+			continue
+		}
+		if atDeadReturn(j.o) {
+			// a return that is provably unreachable under the function's assumptions (its reachability probe was refuted:
+			// assumptions and path condition are contradictory) satisfies every postcondition; the probe's refutation is the
+			// proof (the postcondition's query has the same path condition and a superset of the assumptions)
+			results[i] = &OblResult{Obl: j.o, Status: "proved", Solver: "unreachable-return", Answer: "unsat (reachability probe of this return refuted)", gen: j.g, dir: j.dir, idx: j.idx}
+			continue
+		}
 		wg.Add(1)
 		go func(i int, j job) {
 			defer wg.Done()
